@@ -209,7 +209,7 @@ def derives_from_param(fn, prov, e, idx):
     return False
 
 
-@rule('IO-COUNT', ['C05', 'C07'], floor=20, thorough_configs=('nostd-xzlzip',))
+@rule('IO-COUNT', ['C05', 'C07'], floor=17, thorough_configs=('nostd-xzlzip',))
 def io_count(ctx):
     """The byte count of a partial Read::read / Write::write is honoured: never dropped (W1),
     never returned by a transforming writer whose codec state already advanced (W2), never
@@ -473,6 +473,8 @@ def exact_read(ctx):
                     ctx.ok(key, f.loc(bi), 'pass-through of the caller\'s buffer', nontrivial=False)
                 elif any(x[0] == 'call' and x[1].endswith(('IndexMut::index_mut', 'Index::index')) for x in expr_walk(dst)):
                     ctx.ok(key, f.loc(bi), 'read_exact into an explicitly range-sliced buffer')
+                elif slice_base(dst)[0] == 'local' and re.match(r'\[u8; \d+\]$', f.local_ty(slice_base(dst)[1])):
+                    ctx.ok(key, f.loc(bi), 'read_exact of a %s array' % f.local_ty(slice_base(dst)[1]), nontrivial=False)
                 elif slice_base(dst)[0] == 'repeat' and isinstance(slice_base(dst)[2], int):
                     ctx.ok(key, f.loc(bi), 'read_exact of a %d-byte array' % slice_base(dst)[2], nontrivial=False)
                 elif slice_base(dst)[0] == 'call' and slice_base(dst)[1].endswith('from_elem') and \
